@@ -90,8 +90,32 @@ func callExpr(name string, arity int) string {
 			call += "(" + strings.Join(as, ";") + ")"
 		}
 	}
+	return wrapCall(call)
+}
+
+func wrapCall(call string) string {
 	return `.st as $__st | .cs[] | . as {i: $__i, a: $__a} | (null | _global_state($__st)) as $__s | $__i | try {r: [limit(` +
 		strconv.Itoa(resultLimit) + `; ` + call + `)]} catch {e: 1}`
+}
+
+// runSecondOrder: the pseudo function `@so/1`: tokens `x:<producer>` `x:<consumer>` are jq source
+// (no spaces); the case evaluates `null | PRODUCER | CONSUMER` — the result of one fq function as
+// the input of a generic jq value method. One Eval per case.
+func (w *worker) runSecondOrder(cs []wcase) {
+	for _, c := range cs {
+		if len(c.toks) != 2 || !strings.HasPrefix(c.toks[0], "x:") || !strings.HasPrefix(c.toks[1], "x:") {
+			w.emit(c.id, "badcase")
+			continue
+		}
+		expr := wrapCall("(" + c.toks[0][2:] + ") | (" + c.toks[1][2:] + ")")
+		one := []wcase{c}
+		n := w.runFrom(expr, one, 0)
+		if w.lastTimedOut && n >= 1 {
+			w.retrying = true
+			w.runFrom(expr, one, 0)
+			w.retrying = false
+		}
+	}
 }
 
 const resultLimit = 8
@@ -302,6 +326,10 @@ func (w *worker) runByteColor(cs []wcase) {
 func (w *worker) runGroup(cs []wcase) {
 	if cs[0].name == "@bytecolor" {
 		w.runByteColor(cs)
+		return
+	}
+	if cs[0].name == "@so" {
+		w.runSecondOrder(cs)
 		return
 	}
 	expr := callExpr(cs[0].name, cs[0].arity)
@@ -515,6 +543,15 @@ func workerMain(inPath, outPath string, timeout time.Duration, memLimit uint64) 
 		}
 		bad := false
 		for i, t := range c.toks {
+			if strings.HasPrefix(t, "x:") {
+				// jq source of a second-order case: not a value
+				if i == 0 {
+					c.in = nil
+				} else {
+					c.args = append(c.args, nil)
+				}
+				continue
+			}
 			v, err := parseTok(t, w.pool)
 			if err != nil {
 				w.emit(c.id, "badtoken")
